@@ -8,6 +8,20 @@ import gram
 import vlib
 
 
+POOL = {}     # literal pools of GrammarProds.tla as printed by TLC: kind -> [spelling ...]
+
+
+def pool_obligation(labels):
+    """every entry of every literal pool must have been exercised by some derivation of the run (coverage obligation:
+    a literal form the corpus never contains is a blind spot, reported as a tool error, not as a violation)"""
+    if not POOL:
+        raise vlib.ToolError("TLC did not print the literal pools")
+    missing = sorted("lit:%s:%s" % (k, sp) for k, sps in POOL.items() for sp in sps if "lit:%s:%s" % (k, sp) not in labels)
+    if missing:
+        raise vlib.ToolError("literal pool entries never exercised: %s" % ", ".join(missing[:20]))
+    return sum(len(v) for v in POOL.values())
+
+
 def derivations(cfgs, cov=None, timeout=7200, par=3):
     """Model-checks each configuration (OneValue, NothingDropped, Terminates, PrecedenceShape) and collects the
     derivations TLC printed."""
@@ -18,6 +32,8 @@ def derivations(cfgs, cov=None, timeout=7200, par=3):
     for c, r in zip(cfgs, runs):
         n = 0
         for d in r["replay"]:
+            if d.get("R") == "pool":
+                POOL.update({k: list(v) for k, v in d["pool"].items()})
             if d.get("R") == "g":
                 d["cfg"] = c
                 out.append(d)
@@ -40,6 +56,8 @@ def derivation_batches(cfgs, cov=None, timeout=14400, batch=20000):
         for recs in vlib.tlc_stream("Grammar.tla", "MC_G_%s.cfg" % c, stats, workers=max(4, vlib.NCPU // 2), timeout=timeout, batch=batch):
             ds = []
             for d in recs:
+                if d.get("R") == "pool":
+                    POOL.update({k: list(v) for k, v in d["pool"].items()})
                 if d.get("R") == "g":
                     d["cfg"] = c
                     ds.append(d)
